@@ -555,6 +555,15 @@ def proof_status(rep, prop_id, build):
     return built, (n, n if built else 0), assumptions
 
 
+def coqchk(prop_id):
+    """Independent re-check of the compiled theorem file and everything it depends on."""
+    rc, out, dt = run(["timeout", "1500", "coqchk", "-silent", "-o"] + QFLAGS + ["OV.Props." + prop_id], cwd=COQ, timeout=1600)
+    summary = out[out.find("CONTEXT SUMMARY"):] if "CONTEXT SUMMARY" in out else out[-1500:]
+    m = re.search(r"\* Axioms:(.*?)\* Constants/Inductives relying on type-in-type", summary, flags=re.S)
+    axioms = " ".join(m.group(1).split()) if m else "?"
+    return rc, axioms, " ".join(summary.split())[:1200], dt
+
+
 def standard_run(rep, prop_id, targets, body, rule, exhaustive=False):
     """The frame every check shares: build (translator + make of the property's theorem file and
     the case-support modules), proof status, then `body(rep)` (corpus, correspondences, direct
@@ -580,4 +589,11 @@ def standard_run(rep, prop_id, targets, body, rule, exhaustive=False):
                            "make_log": build.make_log[-3000:]}, found_input=False)
         else:
             rep.coverage["broken_obligation"] = {"failed_files": build.failed_files, "make_log": build.make_log[-1500:]}
+    if rep.tier == "thorough" and built:
+        rc, axioms, summary, dt = coqchk(prop_id)
+        rep.coverage["coqchk"] = {"cmd": "coqchk -silent -o -Q Model OV.Model -Q Gen OV.Gen -Q Props OV.Props OV.Props." + prop_id,
+                                  "exit": rc, "axioms": axioms, "summary": summary, "seconds": round(dt, 1)}
+        if rc != 0 or axioms != "<none>":
+            rep.violation("%s:coqchk" % prop_id, "coqchk does not accept Props/%s.vo without axioms: %s" % (prop_id, axioms),
+                          {"kind": "axioms", "coqchk": summary, "theorem": "Props/%s.v" % prop_id}, found_input=False)
     return rep.finish(build=build, obligations=obl, assumptions_out=assumptions)
